@@ -10,7 +10,7 @@ def run(ctx):
     if exe is None:
         raise vlib.CheckError("harness build failed:\n" + log[-3000:])
     big = ctx.tier == "thorough"
-    args = ["-seed", ctx.seed, "-scen", 2600 if big else 150, "-steps", 70 if big else 50,
+    args = ["-seed", ctx.seed, "-scen", 2400 if big else 120, "-steps", 70 if big else 50,
             "-corpus", os.path.join(vlib.ROOT, "corpus", "c20.tsv")]
     res = vlib.run_pipeline(ctx, exe, args, mcheck, timeout=3000)
     cross_check_in_coq(ctx, 60 if big else 12)
